@@ -219,10 +219,26 @@ def __getattr__(name):
     raise AttributeError(name)
 
 
-def case_one(case, wctx):
+def case_inproc(case, wctx):
     if case.get("family") == "cannot_progress":
         globals().setdefault("Stall", _stall_defs())
     return decide(case, wctx)
+
+
+def case_one(case, wctx):
+    """each case in its own process (vp.c18child) so that a busy loop anywhere in the submission is caught by
+    the CPU-budget monitor and a blocked one by the (inconclusive-only) wall-clock watchdog"""
+    d = wctx.fresh_dir("k")
+    (d / "case.json").write_text(env.jdump(case))
+    rc, _, err = env.run_group([env.PY, "-m", "vp.c18child", str(d / "case.json"), str(d / "out.json")], 600,
+                               cwd=str(env.VERIF), env=dict(os.environ))
+    if (d / "out.json").exists():
+        try:
+            return json.loads((d / "out.json").read_text())
+        except ValueError:
+            pass
+    return {"verdict": "inconclusive", "case": case,
+            "why": f"child rc={rc} (wall-clock watchdog)" if rc == "timeout" else f"child rc={rc}: {err.decode(errors='replace')[-300:]}"}
 
 
 def run(ctx):
@@ -233,7 +249,7 @@ def run(ctx):
     ctx.rule = ("C03 graphs + back-assignments (self-loop, 2-cycle, long cycle, cycle off the output path, random, typed nodes, "
                 "acyclic re-wiring) under debug and cf, plus unstable-hash inputs under cf; every case is non-trivial; "
                 "distinct = distinct case spec")
-    ctx.record_all(ctx.pmap("vp.props.c18:case_one", cases, nproc=8, timeout=600 if quick else 3000))
+    ctx.record_all(ctx.pmap("vp.props.c18:case_one", cases, nproc=12, timeout=900 if quick else 3300))
     if not quick:
         from vp import suite
         ctx.record(suite.run_suite(ctx, ["pydra/engine/tests/test_graph.py", "pydra/compose/tests/test_workflow_run.py"], "lasso"))
